@@ -73,15 +73,15 @@ def run_items(ctx, items, label):
     bad = [e for e in events if e["ev"] == "harness_exc"]
     events = [e for e in events if e["ev"] != "harness_exc"]
     for e in bad:
-        ctx.violation({"kind": label, "clause": "CallRaised", "task": byid.get(e["id"].split("#")[0]), "exc": e["exc"]})
+        ctx.violation({"kind": label, "clause": "CallRaised", "task": byid.get(e["id"].split("#")[0].split(":")[0]), "exc": e["exc"]})
     for e in events:
         ctx.distinct(e["id"])
     rejected = tracecheck.validate(ctx, "Trace_Neutron", neutgen.header(), events, name="Trace_Neutron")
     ctx.count("events", len(events))
     for i, x in sorted(rejected.items()):
-        ctx.violation({"kind": label, "clause": x["clause"], "id": i, "task": byid.get(i.split("#")[0])})
+        ctx.violation({"kind": label, "clause": x["clause"], "id": i, "task": byid.get(i.split("#")[0].split(":")[0])})
     for e in events[1:4]:
-        ctx.sample({"id": e["id"], "task": byid.get(e["id"].split("#")[0])})
+        ctx.sample({"id": e["id"], "task": byid.get(e["id"].split("#")[0].split(":")[0])})
     return events, rejected
 
 
